@@ -55,6 +55,8 @@ def run_one(m, tier, suite):
             t = subprocess.run(["go", "test", "-vet=off", "-count=1", pkg], cwd=root, env=ENV, stdout=subprocess.PIPE, stderr=subprocess.STDOUT, text=True, errors="replace")
             suite_res = "suite-pass" if t.returncode == 0 else "suite-FAIL"
         env = dict(ENV, VERIF_REPO=root, VERIF_EVIDENCE_DIR=os.path.join(root, ".verif-evidence"))
+        if m.get("thorough_only"):
+            tier = "thorough"
         r = subprocess.run([os.path.join(VERIF, "run"), m["prop"], tier], cwd=VERIF, env=env, stdout=subprocess.PIPE, stderr=subprocess.STDOUT, text=True, errors="replace")
         expect = 0 if m.get("equivalent") else 1
         verdict = "ok" if r.returncode == expect else "MISSED" if expect == 1 else "FALSE-ALARM"
@@ -117,7 +119,7 @@ def main():
             f.write("| mutant | property | file | what it does | expected | %s check | pinned suite |\n|---|---|---|---|---|---|---|\n" % tier)
             for m, v in rows:
                 exp = "stays green (equivalent/control)" if m.get("equivalent") else "VIOLATION"
-                got = "exit 1 (caught)" if "exit=1" in v else "exit 0" if "exit=0" in v else v
+                got = ("exit 1 (caught%s)" % (" by the thorough tier" if m.get("thorough_only") else "")) if "exit=1" in v else "exit 0" if "exit=0" in v else v
                 suite_s = "passes" if "suite-pass" in v else "fails (control)" if "suite-FAIL" in v else "-"
                 note = (m.get("note") or (m["old"][:40].replace("\n", " ").replace("|", "/") + " -> " + m["new"][:40].replace("\n", " ").replace("|", "/"))).replace("|", "/")
                 f.write("| %s | %s | %s | %s | %s | %s%s | %s |\n" % (m["id"], m["prop"], m["file"], note, exp, got, "" if v.startswith("ok") else " **" + v.split()[0] + "**", suite_s))
